@@ -5,4 +5,12 @@ NOTE = ("trusted base: CPython 3.12 of /venv, the harness in /verif/vlib (genera
 CLAIMS = {
     "C01": {"text": "every generated valid document is parsed and written through each entry point and validation level while an oracle compares the written records with the input under the documented normalisations only, checks that nothing is flagged, and that writing is a textual fixed point; exploration is the right level because the claim is universal over documents and only sampled executions can be observed",
             "note": NOTE, "technique": "runtime monitoring: generated documents, text-level reference model as round-trip oracle"},
+    "C02": {"text": "generated mutation histories (add in any order incl. forward references, rm by name/instance, disconnect, rename, tag edits) are executed on the real Gfa while an invariant walker, hooked on the outermost return of every mutating entry point, checks ownership, closure, lookup under the current identifier and exact reference/back-reference multiset symmetry through the public API",
+            "note": NOTE, "technique": "runtime monitoring: quiescent-point invariant walker (closed/symmetric object graph) over generated mutation histories"},
+    "C05": {"text": "after every successful step of a generated legal history the written content is compared with an independent text model of the edit (exact removal cascade, rename rewriting) and the full public observation with that of a Gfa parsed afresh from the model text",
+            "note": NOTE, "technique": "runtime monitoring: history checker against an executable text model, step by step"},
+    "C08": {"text": "mutation calls that the model marks as failing are interleaved with successful ones; a failure-atomicity guard snapshots the full public observation before each call and requires equality after every call that raised",
+            "note": NOTE, "technique": "runtime monitoring: failure-atomicity guard (observation before/after every raising call) over generated histories"},
+    "C09": {"text": "histories of additions and renames of every identified record type to fresh, in-use and placeholder-named identifiers; a namespace invariant walker (pairwise distinct identifiers, names == carriers, lookup returns the carrier) runs after every outermost mutation, clashes must raise NotUniqueError, successful renames are compared with the text model",
+            "note": NOTE, "technique": "runtime monitoring: namespace invariant walker + model-checked history of clashes and renames"},
 }
